@@ -417,6 +417,7 @@ def model_check(ctx, cov):
     if ctx.thorough:
         runs += [("RegHttpMC", "C12_mc_waive.cfg", "all priority assignments, S1 pattern waived", None),
                  ("RegHttpMC", "C12_mc_doc.cfg", "all priority assignments, documented order: (P) holds unwaived", None),
+                 ("RegHttpMC", "C12_mc_nr_t.cfg", "one-shot bodies, R 2-3, 6 kinds", None),
                  ("RegHttpMC", "C12_live_t.cfg", "every call returns (liveness), R 1-2", None),
                  ("RegHttpMC", "C12_mc_t3.cfg", "3 hosts, R 1-3", None),
                  ("RegHttpMC", "C12_mc_t2ids.cfg", "2 overlapping requests", None)]
@@ -516,7 +517,10 @@ def binding_demo(ctx, traces):
         ev = t["events"]
         for i in range(len(ev) - 1):
             a, b = ev[i], ev[i + 1]
-            if a["ev"] == "att" and b["ev"] == "att" and a["k"] == "tf" and a["h"] == b["h"] and a["id"] == b["id"]:
+            # the first failure of that host in the trace: the demand is then exactly "reply + delay"
+            if a["ev"] == "att" and b["ev"] == "att" and a["k"] == "tf" and a["h"] == b["h"] and a["id"] == b["id"] \
+                    and not any(e.get("h") == a["h"] and (e["ev"] == "cut" or e.get("k") not in (None, "ok"))
+                                for e in ev[:i]):
                 return i
         return None
     def plain(t):
